@@ -135,7 +135,10 @@ BalkanDenote(b) ==
 (* a point, a centre, a cm, an index list or a use-mask has no other attribute in this        *)
 (* specification.  The outcome demanded of the code is therefore the same whatever the memory *)
 (* layout of the arrays that carry these values (read-only, strided / Fortran-ordered views,  *)
-(* 0-d arrays for scalars, byte-swapped data as it comes out of a FITS file) and whatever the *)
+(* 0-d arrays for scalars, byte-swapped data as it comes out of a FITS file), whatever their  *)
+(* numeric type when the values are integral (an axis vector, whole degrees, cm in {0, +-1,  *)
+(* +-2}, a mask, ncaps or an index list held in int8..int64, uint8..uint64 or a Python int:   *)
+(* the integer 1 and the rational <<1, 1>> are the same value here) and whatever the          *)
 (* decimal spelling of a number in a .ply line (5e-05, 5E-05, +.00005, trailing ".", blanks   *)
 (* or tabs between the fields): PlyForm fixes the numbers on a line, not their spelling.      *)
 (* The harness rotates layouts and spellings over the cases; the expected value of a case is  *)
